@@ -37,7 +37,7 @@ func (d vxCancelDB) Get(key []byte, cb func([]byte) error) error {
 func vxNoTicker(context.Context, any, func()) context.CancelFunc { return func() {} }
 
 func VxC18StateDiffLengthBackfill() {
-	vx.Bound("chain of 1..3 blocks (thorough: 1..4), oldest retained block anywhere in the chain, 0..2 nonce updates per block; cancellation at the k-th database read of the first run for k in 1..8 or never; resumed until completion (<= 3 runs); one reader goroutine in the engine (GOMAXPROCS model = 1), real worker count natively")
+	vx.Bound("chain of 1..3 blocks (thorough: 1..4), oldest retained block anywhere in the chain, 0..2 nonce updates per block; cancellation at the k-th database read of the first run for k in 1..8 or never; a further prefix of the chain (possibly beyond the saved checkpoint) pruned before the resumed run; resumed until completion (<= 3 runs); one reader goroutine in the engine (GOMAXPROCS model = 1), real worker count natively")
 	if vx.InEngine() {
 		vx.Stub("github.com/NethermindEth/juno/migration/progresslogger.CallEveryInterval", vxNoTicker)
 	}
@@ -89,6 +89,21 @@ func VxC18StateDiffLengthBackfill() {
 		} else {
 			vx.Cover("sched:interrupted-and-resumed")
 			state = st
+			// between two starts the node may have been started with history pruning switched on: the
+			// pruning migration runs first (lower index) and removes a longer prefix of the chain,
+			// possibly beyond the checkpoint the interrupted backfill saved
+			if run == 0 && nblocks-1-oldest > 0 {
+				more := vx.Choice("pruned-before-resume", nblocks-oldest)
+				for i := 0; i < more; i++ {
+					if core.DeleteBlockCommitment(d, uint64(oldest)) != nil || core.DeleteStateUpdateByBlockNum(d, uint64(oldest)) != nil {
+						vx.Assume(false)
+					}
+					oldest++
+				}
+				if more > 0 {
+					vx.Cover("sched:prefix-pruned-between-the-runs")
+				}
+			}
 		}
 	}
 	vx.Assert(done, "resumed-run-completes")
